@@ -662,6 +662,23 @@ def gen_async_case(rng, k, abackend, bounded, maxlen):
   return dict(kind='async', cap=cap, max_enq=0, timeout=False, abackend=abackend, max_batch=max_batch, threads=ths, sched=sched)
 
 
+def gen_async_fault_case(rng, k, abackend, bounded, maxlen):
+  """as gen_async_case, with one C05 event: the async producer's source raises / a sync thread calls maybe_stop() /
+  maybe_stop(ValueError); sources long enough that a producer which does not stop is seen still pulling"""
+  case = gen_async_case(rng, k, abackend, bounded, maxlen)
+  ev = ['fail', 'stop', 'excstop'][k % 3]
+  src = list(range(rng.randrange(4, maxlen + 4)))
+  if ev == 'fail':
+    src.insert(rng.randrange(0, len(src)), 'fail')
+  else:
+    case['threads'].append(dict(kind='stopper', api='sync', **(dict(exc='ValueError') if ev == 'excstop' else {})))
+  case['threads'][0]['src'] = src
+  case['event'] = ev
+  case['sched'] = dict(kind=['random', 'pct', 'producers_first'][(k // 3) % 3], seed=rng.randrange(10**9),
+                       changes=rng.randrange(1, 6), horizon=rng.choice([50, 150, 400]))
+  return case
+
+
 def _logical_chooser(spec, record, logical_of, first):
   """prefers, among the enabled normal options, those of the logical threads in `first` (the loop thread, which all
   tasks share, belongs to every group)"""
@@ -723,10 +740,11 @@ def run_async(case, max_steps=8000):
     if isinstance(e, shim._Killed):      # pylint: disable=protected-access
       raise e
     if isinstance(e, StopAsyncIteration):      # the async spelling of the end of the stream
-      outcomes[i] = dict(received=got, outcome={'raise': 'StopIteration', 'args': list(e.args)})
+      outcomes[i] = dict(received=got, outcome={'raise': 'StopIteration', 'args': list(e.args)},
+                         exc=dict(cls='StopIteration', same=False))
       return
-    o, _ = lq.exc_obs(e, injected)
-    outcomes[i] = dict(received=got, outcome=o)
+    o, info = lq.exc_obs(e, injected)
+    outcomes[i] = dict(received=got, outcome=o, exc=info)
 
   class ASource:
     def __init__(self, items, ret):
@@ -740,7 +758,12 @@ def run_async(case, max_steps=8000):
       if self.i >= len(self.items):
         raise StopAsyncIteration(self.ret)
       self.i += 1
-      return self.items[self.i - 1]
+      it = self.items[self.i - 1]
+      if lq.is_fail(it):
+        e = lq.FAULTS[it](f'source failed at {self.i - 1}')
+        injected.append(e)
+        raise e
+      return it
 
   with patched(sched, [iter_utils]):
     pool = _OwnedExecutor(sched, owner, lambda: cur[0])
@@ -809,7 +832,7 @@ def run_async(case, max_steps=8000):
       loop = DetLoop(sched, pool)
       try:
         async def main():
-          tasks = [loop.create_task(logical(i, p)) for i, p in enumerate(case['threads']) if p.get('api') != 'sync']
+          tasks = [loop.create_task(logical(i, p)) for i, p in enumerate(case['threads']) if p.get('api', 'sync') != 'sync']
           for t in tasks:
             await t
         loop.run_until_complete(main())
@@ -826,6 +849,9 @@ def run_async(case, max_steps=8000):
         if p['kind'] == 'producer':
           q.enqueue_from_iterator(lq.Source(sched, p['src'], p['ret'], injected))
           outcomes[i] = dict(received=[], outcome=None)
+        elif p['kind'] == 'stopper':
+          q.maybe_stop(None if p.get('exc') is None else ValueError('stop requested'))
+          outcomes[i] = dict(received=[], outcome=None)
         elif p['kind'] == 'get':
           while True:
             got.append(q.get())
@@ -837,7 +863,7 @@ def run_async(case, max_steps=8000):
 
     sched.spawn('loop', loop_thread)
     for i, p in enumerate(case['threads']):
-      if p.get('api') == 'sync':
+      if p.get('api', 'sync') == 'sync':
         t = sched.spawn(f't{i}', sync_thread, i, p)
         owner[t.tid] = i
     err = None
@@ -846,7 +872,7 @@ def run_async(case, max_steps=8000):
     except shim.SchedulerError as e:
       outcome, err = 'schedule_rejected', str(e)
   logging.disable(logging.NOTSET)
-  sync_tids = {t for t, i in owner.items() if case['threads'][i].get('api') == 'sync'}
+  sync_tids = {t for t, i in owner.items() if i is not None and case['threads'][i].get('api', 'sync') == 'sync'}
   projected, pchoices = [], []
   for k, ((tid, label), (_, alt)) in enumerate(zip(sched.trace, sched.choices)):
     base = label.split(':')[0]
@@ -867,7 +893,8 @@ def run_async(case, max_steps=8000):
     o = outcomes.get(i)
     threads.append(dict(done=bool(o is not None and not o.get('running')), received=list((o or {}).get('received', [])),
                         outcome=(o or {}).get('outcome')))
-  return dict(outcome=outcome, err=err, trace=projected, choices=pchoices, threads=threads,
+  excs = [(outcomes.get(i) or {}).get('exc') for i in range(nth)]
+  return dict(outcome=outcome, err=err, trace=projected, choices=pchoices, threads=threads, **(dict(excs=excs) if any(excs) else {}),
               raw_steps=len(sched.trace), blocked=[list(b) for b in sched.blocked],
               plumbing=sorted({l for (t, l) in sched.trace if not l.startswith(LTS_LABEL) and l not in ('start', 'next', 'task_start')}))
 
@@ -876,6 +903,8 @@ def async_model_request(case, obs):
   ths = []
   for p in case['threads']:
     p2 = {k: v for k, v in p.items() if k != 'api'}
+    if p2['kind'] == 'producer':
+      p2['src'] = ['fail' if isinstance(v, str) else v for v in p2['src']]
     ths.append(p2)
   return dict(model='queue', cap=case['cap'], max_enq=0, timeout=False, ignore_error=False, threads=ths,
               schedule=[c[0] if c[1] is None else [c[0], c[1]] for c in obs['choices']])
@@ -895,9 +924,20 @@ def async_compare(obs, r):
       if a != b:
         return f'operation #{k}: real {a} vs model {b}'
     return f"trace lengths differ: real {len(obs['trace'])} model {len(r['trace'])}"
-  if obs['threads'] != r['threads']:
+  # The loop head of async_enqueue_from_iterator (`while not self.enqueue_done`) is read when the coroutine RESUMES, one
+  # await point after `put` returned in the executor thread; the LTS fuses that read into put's last step.  A producer
+  # the LTS leaves in front of its next pull (last operation: put's / _start_enqueue's final release) while the real one
+  # has meanwhile seen the stop request / failure and returned is the same behaviour one read later: accepted, counted.
+  late = []
+  for i, (a, b) in enumerate(zip(obs['threads'], r['threads'])):
+    if a != b and a['done'] and a['outcome'] is None and not b['done'] and b['outcome'] is None and a['received'] == b['received']:
+      mine = [l for t, l in obs['trace'] if t == i]
+      if mine and mine[-1] in ('release cond2', 'release rlock1'):
+        late.append(i)
+  obs['late_loop_check'] = late
+  if [t for i, t in enumerate(obs['threads']) if i not in late] != [t for i, t in enumerate(r['threads']) if i not in late]:
     return f"thread outcomes differ: real {obs['threads']} vs model {r['threads']}"
-  if obs['outcome'] == 'done' and not r['all_done']:
+  if obs['outcome'] == 'done' and not r['all_done'] and not late:
     return 'the real run ended, the model has unfinished threads'
   if obs['outcome'] == 'deadlock' and r['enabled']:
     return f"the real run is stuck, the model still has enabled choices {r['enabled']}"
@@ -913,4 +953,4 @@ def note_async(case, obs):
   if 'wait cond1' in labels:
     COV[a + ':empty'] += 1
   for p in case['threads']:
-    COV['async_api:' + ('async_enqueue_from_iterator' if p['kind'] == 'producer' and p['api'] == 'async' else p['api'])] += 1
+    COV['async_api:' + ('async_enqueue_from_iterator' if p['kind'] == 'producer' and p.get('api') == 'async' else p.get('api', 'sync'))] += 1
